@@ -4,6 +4,7 @@ import LekkerVerif.Model.DriverParams
 import LekkerVerif.Model.DriverWiring
 import LekkerVerif.Model.DriverSplit
 import LekkerVerif.Model.DriverPrune
+import LekkerVerif.Model.DriverNames
 /-! Driver ops.  Each op runs executable definitions of the model on the decoded request. -/
 open Lean
 
@@ -138,6 +139,7 @@ def dispatch (j : Json) : Json :=
   | some "wiring" => opWiring j
   | some "split" => opSplit j
   | some "prune" => opPrune j
+  | some "names" => opNames j
   | some "ping" => Json.mkObj [("ok", true)]
   | _ => errJson "unknown-op"
 
